@@ -170,6 +170,63 @@ class System:
             ok = False
         if ok and not getattr(self.sc, "no_reduction", False):
           self.invisible.add((p.tid, n.id))
+    self.break_local_cycles()
+
+  def break_local_cycles(self):
+    """every cycle of a thread's control flow must contain a stable node (otherwise one step would be unbounded):
+    an invisible operation on such a cycle is made visible again"""
+    for p in self.programs:
+      while True:
+        cyc = self.local_cycle(p)
+        if cyc is None:
+          break
+        ops = [nid for nid in cyc if isinstance(p.nodes[nid], ir.Op)]
+        if not ops:
+          raise TranslationError("thread %s has a loop without any shared operation (nodes %s)" % (p.name, cyc[:6]))
+        # visibility is a property of (thread, object, operation): the replay proxies cannot tell two call sites apart
+        chosen = p.nodes[ops[0]]
+        key = (self.target_names(chosen), chosen.name)
+        for n in p.nodes:
+          if isinstance(n, ir.Op) and (self.target_names(n), n.name) == key:
+            self.invisible.discard((p.tid, n.id))
+
+  def target_names(self, n):
+    return tuple([n.target.name] if isinstance(n.target, M.Model) else [m.name for m in self.sc.objs_of(n.target[0])])
+
+  def local_cycle(self, p):
+    succ = {}
+    for n in p.nodes:
+      if self.is_stable(p, n):
+        continue
+      if isinstance(n, ir.Branch):
+        sx = [n.t, n.f]
+      elif isinstance(n, ir.Op):
+        sx = [n.next] + list(n.exc.values())
+      else:
+        sx = [n.next]
+      succ[n.id] = [x for x in sx if x is not None and not self.is_stable(p, p.nodes[x])]
+    color = {}
+    for root in succ:
+      if root in color:
+        continue
+      stack = [(root, iter(succ[root]))]
+      path = [root]
+      color[root] = 1
+      while stack:
+        nid, it = stack[-1]
+        nxt = next(it, None)
+        if nxt is None:
+          color[nid] = 2
+          stack.pop()
+          path.pop()
+          continue
+        if color.get(nxt) == 1:
+          return path[path.index(nxt):]
+        if nxt not in color:
+          color[nxt] = 1
+          stack.append((nxt, iter(succ[nxt])))
+          path.append(nxt)
+    return None
 
   def is_stable(self, p, n):
     if isinstance(n, ir.End) or n.id == p.entry:
@@ -310,8 +367,14 @@ class System:
         st2 = dict(st2)
         st2["pc.%d" % tid] = pc2
         node = self.prog(tid).nodes[pc]
-        return st2, {"tid": tid, "pc": pc, "op": info[0], "outcome": info[1], "src": node.src,
-                     "target": getattr(getattr(node, "target", None), "name", None) if not isinstance(getattr(node, "target", None), tuple) else node.target[0]}
+        tgt = getattr(node, "target", None)
+        if isinstance(tgt, tuple):
+          idx = ir.evint(tgt[1], st, ir.ConcreteB)
+          objs = self.sc.objs_of(tgt[0])
+          tname = objs[idx - 1].name if 1 <= idx <= len(objs) else tgt[0]
+        else:
+          tname = getattr(tgt, "name", None)
+        return st2, {"tid": tid, "pc": pc, "op": info[0], "outcome": info[1], "src": node.src, "target": tname}
     return None
 
   def run_concrete(self, schedule, inputs=None):
